@@ -274,7 +274,7 @@ func runC07(c *Ctx) {
 	if !c.Level("engine:file-vs-string") {
 		return
 	}
-	esizes := []int{0, 1, 5, 600, 4095, 4096, 4097, 6200, 8193}
+	esizes := []int{0, 1, 5, 9, 600, 4095, 4096, 4097, 6200, 8193}
 	if !c.Quick() {
 		esizes = append(esizes, 2, 2048, 4094, 4098, 8191, 8192, 12289)
 	}
@@ -322,6 +322,9 @@ func runC07(c *Ctx) {
 				}
 				if size > 40 && strings.Contains(prog, "'zz'") {
 					b[size-1], b[size-2] = 'z', 'y' // greedy loop runs to the end of the file, then backtracks all the way
+				}
+				if size >= 5 && p >= 0 && p%2 == 1 && p+4 < size {
+					copy(b[p+2:], "\xc3\xa9") // a two-byte UTF-8 character right after the motif: sizes are in bytes, not runes
 				}
 				content := string(b)
 				caseNo++
